@@ -258,3 +258,25 @@ def emit(o, repo, T):
         d = T.the(sorted(ds), 'rounding digits of the JSON writer')
         return f'/-- `io.spn_to_digraph` / `binary_clt_to_digraph`: decimals kept by every `round` / `np.around` -/\ndef jsonDigits : Nat := {d.numerator}'
     o.const('jsonDigits', json_digits)
+
+    # ---- C05: re-queue discipline of LearnSPN's single-slice branches ----------------------------------
+    def requeue():
+        learnspn = T.parse_file(repo, 'deeprob/spn/learning/learnspn.py')
+        fn = T.find_func(learnspn, 'learn_spn')
+        found = []
+        for st in T.walk_stmts(fn):
+            if isinstance(st, ast.If) and 'len(slices)==1' in ast.unparse(st.test).replace(' ', ''):
+                calls = [c for b in st.body for c in ast.walk(b) if isinstance(c, ast.Call) and (T.dotted_name(c.func) or '').startswith('tasks.')]
+                names = [T.dotted_name(c.func).split('.')[-1] for c in calls]
+                if len(names) != 1 or names[0] not in ('append', 'appendleft'):
+                    raise U('single-slice branch does not re-queue with tasks.append / tasks.appendleft')
+                found.append(names[0])
+        if len(found) != 2:
+            raise U(f'expected two single-slice branches in learn_spn, found {len(found)}')
+        front = all(n == 'appendleft' for n in found)
+        mixed = len(set(found)) > 1
+        return ('/-- `learn_spn`: a task whose split returned a single slice is re-queued at the FRONT of the deque '
+                '(`appendleft`) in both single-slice branches -/\n'
+                f'def learnRequeueFront : Bool := {"true" if front else "false"}\n'
+                f'def learnRequeueMixed : Bool := {"true" if mixed else "false"}')
+    o.const('learnspn.requeue', requeue)
